@@ -201,8 +201,43 @@ def run(chk):
     chk.count("law-instances", n_laws)
     chk.floor("law-instances", 150)
     chk.sample({"laws": ["stop;stop==stop", "stop;play resumes", "play;play==play", "end of tape -> (Stop,Stop)", "rewind(stopped);play -> Play"], "instances": n_laws})
+    api_wrappers(chk, prog)
     return chk.finish(EXPL)
 
 
 def kz(t):
     return isinstance(t, T) and t.is_const() and t.val == 0
+
+
+def api_wrappers(chk, prog):
+    """The host presses the deck's buttons through Emulator::play_tape / stop_tape / rewind_tape: each is exactly the
+    deck command of the same name, once, on the inserted tape (whichever kind it is) and nothing else on it; rewind_tape
+    returns the command's result.  The laws above are stated for the commands; this makes them hold for the buttons."""
+    from . import loaders as ld
+    chk.rule("T-PAIR/api", "Emulator::play_tape / stop_tape / rewind_tape = exactly one call of the deck command of the same name on the inserted tape")
+    ln = ld.LoaderNames(prog)
+    tapefns = set(p for p in prog.fns if "TapeImpl>::" in p and p.startswith("<rustzx_core::") and "ZXTape<" not in p)
+    for api, cmd in (("play_tape", "play"), ("stop_tape", "stop"), ("rewind_tape", "rewind")):
+        key = "T-PAIR/Emulator::%s" % api
+        try:
+            fn = prog.fn(prog.fn_path("rustzx_core", "Emulator::<H>::" + api))
+        except Exception as e:
+            chk.undecided_(key + "/anchor", "%s" % e)
+            continue
+        w = Walker(prog)
+        w.opaque_paths |= tapefns
+        w.effect_hook = lambda w_, st, path, a, d, wh: EffectResult(None, havoc=False)
+        st = ld.emulator_state(w, prog, ln, "Sinclair48K")
+        rs = w.run(fn, [Ref(ld.EMU, (), True)], genv={"H": ld.H}, state=st)
+        if not rs or any(r.outcome != "return" for r in rs):
+            chk.fail(key + "/paths", "%s" % [(r.outcome, r.detail) for r in rs][:2])
+            continue
+        for r in rs:
+            calls = [e.path.split("::")[-1] for e in r.trace if e.path in tapefns]
+            ok = calls == [cmd]
+            if ok and cmd == "rewind":
+                ok = getattr(r.ret, "name", "").startswith("ret0:rewind")
+            chk.check(ok, key, "%s performs the deck commands %s%s; documented: %s once, nothing else" % (
+                api, calls, "" if cmd != "rewind" or calls != [cmd] else " but does not return the command's result", cmd))
+            chk.count("deck-api-paths")
+    chk.floor("deck-api-paths", 6)
